@@ -88,7 +88,43 @@ def gen_addsub(rng, n):
         yield line(rng.choice(['add', 'sub']), rng.choice(MODES), status_in(rng), x, y)
 
 
+def product_with_low_digits(rng):
+    """(A, B, n, keep): coefficients whose exact product A*B has q4 digits of which the low n = q4 - keep follow a chosen
+    rounding pattern (tie / just above / just below / first-rounding trap at digit 34): B = pattern * A^-1 mod 10^n"""
+    from math import gcd
+    while True:
+        qa = rng.randint(1, 34); A = coeff(rng, qa) | 1
+        if A % 5 == 0: A += 2
+        if A >= T34 or gcd(A, 10) != 1: continue
+        n = rng.randint(1, 34)
+        kind = rng.random()
+        if kind < 0.25: low = '5' + '0' * (n - 1)                                  # exact tie
+        elif kind < 0.45: low = '5' + '0' * (n - 2) + '1' if n > 1 else '6'        # just above
+        elif kind < 0.65: low = '4' + '9' * (n - 1)                                # just below
+        elif kind < 0.8: low = '0' * (n - 1) + rng.choice('01')                    # exact / tiny
+        else: low = tail_digits(rng, n)
+        low = int(low)
+        B = (low * pow(A, -1, 10 ** n)) % 10 ** n
+        hi_room = 34 - n
+        if hi_room > 0 and rng.random() < 0.8: B += rng.randint(0, 10 ** rng.randint(0, hi_room) - 1) * 10 ** n
+        if B == 0 or B >= T34: continue
+        P = A * B
+        assert P % 10 ** n == low
+        return A, B, n, ndig(P) - n
+
+
+def pair_mul_underflow(rng):
+    """product placed so that the quantum 1E-6176 falls right above the n patterned low digits"""
+    A, B, n, keep = product_with_low_digits(rng)
+    eP = QMIN - n + rng.choice([0, 0, 0, 1, -1])
+    r = rng.randint(0, max(0, 6176 - n - 2))
+    e1 = QMIN + r; e2 = eP - e1
+    e2 = max(QMIN, min(QMAX, e2))
+    return fin(rng.randint(0, 1), A, e1), fin(rng.randint(0, 1), B, e2)
+
+
 def pair_mul(rng):
+    if rng.random() < 0.12: return pair_mul_underflow(rng)
     k = rng.random()
     if k < 0.30:      # product with an exact-half (or near) tail: x odd-ish times 5, 25, 125, ...
         j = rng.randint(1, 20); y = 5 ** j
@@ -288,6 +324,13 @@ def gen_hash(rng, n):
 
 # ------------------------------------------------------------------------------------------------ C02 fma
 def triple_fma(rng):
+    if rng.random() < 0.08:      # product with patterned low digits in the underflow zone (double-rounding traps), small / zero addend
+        x, y = pair_mul_underflow(rng)
+        kk = rng.random()
+        if kk < 0.4: z = fin(rng.randint(0, 1), 0, rng.choice([QMIN, QMIN + rng.randint(0, 40), expo(rng)]))
+        elif kk < 0.8: z = fin(rng.randint(0, 1), rng.choice([1, 1, 2, 5, 10, rng.randint(1, 10 ** rng.randint(1, 6))]), QMIN)
+        else: z = fin(rng.randint(0, 1), coeff(rng), QMIN + rng.randint(0, 3))
+        return x, y, z
     k = rng.random()
     if k < 0.35:      # alignment cells: q4 = digits of product, delta = q3 + e3 - q4 - e4 on the case boundaries
         q1 = rng.randint(1, 34); q2 = rng.randint(1, 34); q3 = rng.randint(1, 34)
